@@ -84,7 +84,7 @@ CHECKS = {
    note='the OS is not modelled (a file is a text split at LF, CRLF, CR); error positions are C07; graphs in the dumps clause must come from well-formed trees under the model (specification predicate)',
    technique='TLA+ spec of containers and stream framing model-checked by TLC + TLC trace validation of recorded load/dump executions'),
  'C17': dict(engine='purity', design='5 C17, 4.11',
-   text='Purity.tla is a history machine over a pool of shared objects with 27 API operations: TLC checks the frame conditions (a pure call changes no pool object, an in-place call changes only its target) and that results are a function of argument values on every history up to a bound, and generates call histories in simulation mode; each history is replayed on real objects under four hash seeds and inside a worker process with snapshots of every pool object before and after every call; TLC validates the frame conditions on the recorded snapshots, function-of-arguments across the history, and identity of all runs; the command is run as a subprocess under four hash seeds and outputs compared by TLC. After every call that returns a plain value the caller changes that value in place and repeats the call (a returned value belongs to the caller); a directed sub-machine (DSpec), enumerated completely by TLC, lets a graph derived from a pool graph meet that graph as the other operand of every binary operation, in both orders.',
+   text='Purity.tla is a history machine over a pool of shared objects with 29 API operations: TLC checks the frame conditions (a pure call changes no pool object, an in-place call changes only its target) and that results are a function of argument values on every history up to a bound, and generates call histories in simulation mode; each history is replayed on real objects under four hash seeds and inside a worker process with snapshots of every pool object before and after every call; TLC validates the frame conditions on the recorded snapshots, function-of-arguments across the history, and identity of all runs; the command is run as a subprocess under four hash seeds and outputs compared by TLC. After every call that returns a plain value the caller changes that value in place and repeats the call (a returned value belongs to the caller); a directed sub-machine (DSpec), enumerated completely by TLC, lets a graph derived from a pool graph meet that graph as the other operand of every binary operation, in both orders.',
    note='hash seeds and processes cannot be modelled: identical histories are replayed and compared; projection excludes the iteration order of the marker dictionary (O6)',
    technique='TLA+ history machine (frame conditions) model-checked by TLC + replay of TLC-simulated call histories under several hash seeds/processes, validated by TLC'),
 }
